@@ -87,12 +87,13 @@ class PyEcoreValue(object):
             return
         if value is not None:
             resource = value.eResource
-            if resource and value in resource.contents:
+            if resource is not None and resource.is_root(value):
                 resource.remove(value)
             prev_container = value._container
             prev_feature = value._containment_feature
-            if (prev_container != self.owner
-                    or prev_feature != self.feature) \
+            # (identity, not '==': model classes may compare by value)
+            if (prev_container is not self.owner
+                    or prev_feature is not self.feature) \
                     and isinstance(prev_container, EObject):
                 prev_container.__dict__[prev_feature._name] \
                               .remove_or_unset(value)
